@@ -4,11 +4,17 @@ Serializer configurations shared by the framing properties (C01 C02 C03 C05 C06 
 A *spec* is a JSON-serialisable dict; `build(spec)` returns the real EasyNetwork serializer.
 A *packet value* is stored in cases in a tagged JSON form (`enc_val` / `dec_val`).
 `model_head(spec, path, hint)` names the Lean model (endriver) that mirrors the serializer's framer, if any.
+Session 4: every constructor option is a spec key (`build`), `vary` draws them from their legal domain, `valid_packet` /
+`codec_roundtrips` define the valid packets of an option-varied spec, `CODEC_BAD` / `HOSTILE_PICKLES` the malformed ones.
 """
 from __future__ import annotations
 
 import collections
+import functools
 import io
+import json as _json
+import os
+import re as _re
 import struct as _struct
 from typing import Any
 
@@ -99,22 +105,31 @@ FILE_TOYS = ("filetoy", "filepeek", "fileahead")
 
 
 class ToyFile(FileBasedPacketSerializer[bytes, bytes]):
-    """length-prefixed toy file format: 1 byte n (0..200), then n bytes. n > 200 is a format error."""
+    """length-prefixed toy file format: 1 byte n (0..200), then n bytes. n > 200 is a format error.
+    Spec key `hdr` (session 4, default 1): width of the big-endian length header; with hdr > 1 payloads up to 1 MiB are legal
+    (frames far above the 16 KiB default read size, for limits of tens of kilobytes); a larger length is a format error and the
+    position is then just behind the header, as for the 1-byte format."""
 
-    def __init__(self, limit: int, expected: str = "toy", debug: bool = False) -> None:
+    def __init__(self, limit: int, expected: str = "toy", debug: bool = False, hdr: int = 1) -> None:
         super().__init__(expected_load_error=EXPECTED_LOAD_ERRORS[expected], limit=limit, debug=debug)
+        self.hdr = hdr
+        self.maxlen = 200 if hdr == 1 else min(1 << 20, 256 ** hdr - 1)
 
     def dump_to_file(self, packet: bytes, file: io.IOBase) -> None:
-        assert len(packet) <= 200
-        file.write(bytes([len(packet)]) + bytes(packet))
+        assert len(packet) <= self.maxlen
+        file.write(len(packet).to_bytes(self.hdr, "big") + bytes(packet))
+
+    def _header(self, h: bytes) -> int:
+        n = int.from_bytes(h, "big")
+        if n > self.maxlen:
+            raise ToyFileError(f"bad length {n}")
+        return n
 
     def load_from_file(self, file: io.IOBase) -> bytes:
-        h = file.read(1)
-        if not h:
+        h = file.read(self.hdr)
+        if len(h) < self.hdr:
             raise EOFError
-        n = h[0]
-        if n > 200:
-            raise ToyFileError(f"bad length byte {n}")
+        n = self._header(h)
         data = file.read(n)
         if len(data) < n:
             raise EOFError
@@ -127,12 +142,10 @@ class PeekFile(ToyFile):
     contract of load_from_file()"""
 
     def load_from_file(self, file: io.IOBase) -> bytes:
-        h = file.read(1)
-        if not h:
+        h = file.read(self.hdr)
+        if len(h) < self.hdr:
             raise EOFError
-        n = h[0]
-        if n > 200:
-            raise ToyFileError(f"bad length byte {n}")
+        n = self._header(h)
         here = file.tell()
         end = file.seek(0, 2)
         file.seek(here)
@@ -149,37 +162,129 @@ class AheadFile(ToyFile):
     def load_from_file(self, file: io.IOBase) -> bytes:
         start = file.tell()
         data = file.read()
-        if not data:
+        w = self.hdr
+        if len(data) < w:
             raise EOFError
-        n = data[0]
-        if n > 200:
-            file.seek(start + 1)
-            raise ToyFileError(f"bad length byte {n}")
-        if len(data) < 1 + n:
+        n = int.from_bytes(data[:w], "big")
+        if n > self.maxlen:
+            file.seek(start + w)
+            raise ToyFileError(f"bad length {n}")
+        if len(data) < w + n:
             raise EOFError          # (position left at the end, like ToyFile)
-        file.seek(start + 1 + n)
-        return data[1:1 + n]
+        file.seek(start + w + n)
+        return data[w:w + n]
 
 
 Point = collections.namedtuple("Point", ["x", "y", "name"])
 
+_NT_CLASSES: dict[tuple, Any] = {}
+
+
+def nt_class(names) -> Any:
+    """the named-tuple class of a `ntstruct` spec with explicit `fields` (one class object per field-name tuple: the real
+    serializer checks `isinstance(packet, namedtuple_cls)`)"""
+    key = tuple(names)
+    if key not in _NT_CLASSES:
+        _NT_CLASSES[key] = collections.namedtuple("Rec", list(key))
+    return _NT_CLASSES[key]
+
+
+# ---- JSON encoder / decoder configuration knobs, named so that a spec stays JSON-serialisable -------------------------------
+def _json_default(o: Any) -> Any:
+    if isinstance(o, (set, frozenset)):
+        return sorted(o)
+    raise TypeError(f"not JSON serialisable: {o!r}")
+
+
+_JSON_CALLABLES: dict[str, Any] = {
+    "int": int, "float": float, "dict": dict, "ident": lambda d: d, "constfloat": float, "setlist": _json_default,
+}
+
+
+def _json_configs(spec: dict):
+    from easynetwork.serializers.json import JSONDecoderConfig, JSONEncoderConfig
+    enc = dec = None
+    if spec.get("enc"):
+        e = dict(spec["enc"])
+        if "default" in e:
+            e["default"] = _JSON_CALLABLES[e["default"]]
+        enc = JSONEncoderConfig(**e)
+    if spec.get("dec"):
+        d = {k: (_JSON_CALLABLES[v] if isinstance(v, str) else v) for k, v in spec["dec"].items()}
+        dec = JSONDecoderConfig(**d)
+    return enc, dec
+
+
+B64_KEYS = ["MDEyMzQ1Njc4OWFiY2RlZjAxMjM0NTY3ODlhYmNkZWY=", "_-_-_-_-_-_-_-_-_-_-_-_-_-_-_-_-_-_-_-_-_-8="]   # 32-byte url-safe keys
+
+
+def _pickle_kwargs(spec: dict) -> dict:
+    import pickle
+    from easynetwork.serializers.pickle import PicklerConfig, UnpicklerConfig
+    kw: dict[str, Any] = {}
+    if "proto" in spec or "fix_imports" in spec:
+        kw["pickler_config"] = PicklerConfig(protocol=spec.get("proto", pickle.DEFAULT_PROTOCOL), fix_imports=spec.get("fix_imports", False))
+    if "unpickler" in spec:
+        kw["unpickler_config"] = UnpicklerConfig(**spec["unpickler"])
+    if spec.get("optimize"):
+        kw["pickler_optimize"] = True
+    if spec.get("classes"):
+        # user-supplied Pickler / Unpickler classes (the documented way to restrict what may be loaded)
+        class _P(pickle.Pickler):
+            pass
+
+        class _U(pickle.Unpickler):
+            def find_class(self, module: str, name: str) -> Any:
+                if module in ("os", "posix", "nt", "subprocess", "sys"):
+                    raise pickle.UnpicklingError(f"global {module}.{name} is forbidden")
+                return super().find_class(module, name)
+        kw["pickler_cls"], kw["unpickler_cls"] = _P, _U
+    return kw
+
+
+def nt_format(spec: dict) -> str:
+    """struct format of a `ntstruct` spec (as the real serializer builds it: no byte-order character = network order)"""
+    if "fields" not in spec:
+        return "!iH6s"
+    return (spec.get("endian", "") or "!") + "".join(f for _, f in spec["fields"])
+
 
 def build(spec: dict) -> Any:
-    """every kind takes the optional key `debug` (the serializers' `debug=True` mode: error reports carry `error_info`)"""
+    """every kind takes the optional key `debug` (the serializers' `debug=True` mode: error reports carry `error_info`).
+    Session 4: every constructor option is a spec key (absent = the library's / the harness' historical default):
+      line      newline keep_end limit encoding errors(=unicode_errors)
+      json      use_lines limit encoding errors enc{skipkeys check_circular ensure_ascii allow_nan default} dec{strict parse_int
+                parse_float parse_constant object_hook object_pairs_hook}
+      struct    format (byte order, repeat counts, pad bytes, s / p / c / ? / e f d)
+      ntstruct  fields[[name, fmt]…] endian encoding(None = bytes fields) errors strip(=strip_string_trailing_nul_bytes)
+      b64       inner alphabet checksum(False | True | {"key": <32-byte url-safe key>, "as": "str" | "bytes"}) separator limit
+      zlib bz2  inner level
+      pickle    proto fix_imports unpickler{fix_imports encoding errors} optimize classes(user Pickler / Unpickler subclasses)
+      autosep   sep limit check(=incremental_serialize_check_separator) hold      fixed  size hold
+      file toys limit expected hdr"""
     k = spec["k"]
     dbg = bool(spec.get("debug", False))
     if k == "line":
-        return StringLineSerializer(spec["newline"], encoding=spec.get("encoding", "ascii"),
+        return StringLineSerializer(spec["newline"], encoding=spec.get("encoding", "ascii"), unicode_errors=spec.get("errors", "strict"),
                                     limit=spec["limit"], keep_end=spec.get("keep_end", False), debug=dbg)
     if k == "json":
-        return JSONSerializer(limit=spec["limit"], use_lines=spec.get("use_lines", True), debug=dbg)
+        enc, dec = _json_configs(spec)
+        return JSONSerializer(enc, dec, encoding=spec.get("encoding", "utf-8"), unicode_errors=spec.get("errors", "strict"),
+                              limit=spec["limit"], use_lines=spec.get("use_lines", True), debug=dbg)
     if k == "struct":
         return StructSerializer(spec["format"], debug=dbg)
     if k == "ntstruct":
-        return NamedTupleStructSerializer(Point, {"x": "i", "y": "H", "name": "6s"}, format_endianness="!", debug=dbg)
+        if "fields" not in spec:
+            return NamedTupleStructSerializer(Point, {"x": "i", "y": "H", "name": "6s"}, format_endianness="!", debug=dbg)
+        names = [n for n, _ in spec["fields"]]
+        return NamedTupleStructSerializer(nt_class(names), dict(spec["fields"]), spec.get("endian", ""), spec.get("encoding", "utf-8"),
+                                          spec.get("errors", "strict"), spec.get("strip", True), debug=dbg)
     if k == "b64":
+        ck = spec.get("checksum", False)
+        if isinstance(ck, dict):
+            ck = ck["key"] if ck.get("as") == "str" else ck["key"].encode("ascii")
         return Base64EncoderSerializer(build(spec["inner"]), alphabet=spec.get("alphabet", "urlsafe"),
-                                       checksum=spec.get("checksum", False),
+                                       checksum=ck,
                                        separator=bytes.fromhex(spec.get("separator", "0d0a")), limit=spec["limit"], debug=dbg)
     if k == "zlib":
         return ZlibCompressorSerializer(build(spec["inner"]), compress_level=spec.get("level"), debug=dbg)
@@ -191,13 +296,13 @@ def build(spec: dict) -> Any:
     if k == "fixed":
         return RawFixed(spec["size"], debug=dbg, hold=spec.get("hold"))
     if k == "filetoy":
-        return ToyFile(spec["limit"], spec.get("expected", "toy"), dbg)
+        return ToyFile(spec["limit"], spec.get("expected", "toy"), dbg, spec.get("hdr", 1))
     if k == "filepeek":
-        return PeekFile(spec["limit"], spec.get("expected", "toy"), dbg)
+        return PeekFile(spec["limit"], spec.get("expected", "toy"), dbg, spec.get("hdr", 1))
     if k == "fileahead":
-        return AheadFile(spec["limit"], spec.get("expected", "toy"), dbg)
+        return AheadFile(spec["limit"], spec.get("expected", "toy"), dbg, spec.get("hdr", 1))
     if k == "pickle":
-        return PickleSerializer(debug=dbg)
+        return PickleSerializer(debug=dbg, **_pickle_kwargs(spec))
     if k == "stapled":
         return StapledIncrementalPacketSerializer(build(spec["sent"]), build(spec["received"]))
     if k == "stapledbuf":
@@ -254,7 +359,7 @@ def fixed_size(spec: dict) -> int | None:
     if spec["k"] == "struct":
         return _struct.calcsize(spec["format"])
     if spec["k"] == "ntstruct":
-        return _struct.calcsize("!iH6s")
+        return _struct.calcsize(nt_format(spec))
     if spec["k"] == "fixed":
         return spec["size"]
     return None
@@ -311,6 +416,8 @@ def enc_val(v: Any) -> Any:
         return {"t": "b", "v": bytes(v).hex()}
     if isinstance(v, Point):
         return {"t": "pt", "v": [v.x, v.y, v.name]}
+    if isinstance(v, tuple) and hasattr(v, "_fields"):
+        return {"t": "nt", "f": list(v._fields), "v": [enc_val(x) for x in v]}
     if isinstance(v, tuple):
         return {"t": "tu", "v": [enc_val(x) for x in v]}
     if isinstance(v, str):
@@ -326,6 +433,8 @@ def dec_val(o: Any) -> Any:
         return Point(*o["v"])
     if t == "tu":
         return tuple(dec_val(x) for x in o["v"])
+    if t == "nt":
+        return nt_class(o["f"])(*[dec_val(x) for x in o["v"]])
     return o["v"]
 
 
@@ -341,6 +450,8 @@ ALPHA = "abcxyz01 \t"
 
 def gen_packet(rng, spec: dict, maxlen: int = 12) -> Any:
     """a *valid* packet for the send side of `spec` (one the producer accepts and that yields a non-empty frame)"""
+    if has_options(spec):
+        return _gen_packet_opt(rng, spec, maxlen)
     spec = send_spec(spec)
     k = spec["k"]
     if k == "line":
@@ -410,10 +521,41 @@ def gen_packet(rng, spec: dict, maxlen: int = 12) -> Any:
 def expected_received(spec: dict, packet: Any) -> Any:
     """what the receive side should return for a sent packet (identity but for representation changes)"""
     r = recv_spec(spec)
+    while r["k"] in ("b64", "zlib", "bz2"):
+        r = r["inner"]
     if r["k"] in ("autosep", "fixed") + FILE_TOYS:
         return bytes(packet)
     if r["k"] == "struct":
-        return tuple(packet)
+        # struct semantics (not EasyNetwork's): an `Ns` value shorter than N comes back padded with NUL bytes
+        out, vals = [], list(packet)
+        for cnt, ch in struct_tokens(r["format"]):
+            if ch == "x":
+                continue
+            if ch in "sp":
+                v = vals.pop(0)
+                out.append(v + b"\0" * (cnt - len(v)) if ch == "s" else v)
+            else:
+                for _ in range(cnt):
+                    out.append(vals.pop(0))
+        return tuple(out)
+    if r["k"] == "ntstruct" and "fields" in r:
+        # the same padding for the `Ns` fields, removed again iff strip_string_trailing_nul_bytes; text fields through the
+        # Python codec (a parameter, as everywhere)
+        enc, err, strip = r.get("encoding", "utf-8"), r.get("errors", "strict"), r.get("strip", True)
+        vals = []
+        for (name, fmt), v in zip(r["fields"], packet):
+            if fmt.endswith("s"):
+                n = int(fmt[:-1] or 1)
+                b = v if enc is None else v.encode(enc, err)
+                b = b + b"\0" * (n - len(b))
+                if strip:
+                    b = b.rstrip(b"\0")
+                try:
+                    v = b if enc is None else str(b, enc, err)
+                except UnicodeError:
+                    pass            # (no expectation can be computed: the packet itself stays the expectation)
+            vals.append(v)
+        return type(packet)(*vals)
     return packet
 
 
@@ -443,6 +585,9 @@ def gen_spec(rng, *, limits=(8, 16, 64, 65536), allow=None, rich: bool = False) 
     # debug=True variants of everything (error reports then carry error_info; the framing must not change)
     if spec["k"] not in ("stapled", "stapledbuf") and rng.random() < 0.3:
         spec["debug"] = True
+    # session 4: the constructor options of the serializer (and of what it wraps) drawn from their legal domain
+    if rng.random() < 0.55:
+        vary(rng, spec)
     return spec
 
 
@@ -493,6 +638,555 @@ def _gen_spec(rng, k: str, lim: int, limits, rich: bool) -> dict:
 
 
 # ------------------------------------------------------------------------------------------------
+# session 4: constructor OPTIONS drawn from their legal domain
+# ------------------------------------------------------------------------------------------------
+# A spec that carries any of the option keys below is an "option-varied" spec: packets for it come from `_gen_packet_opt`
+# (candidates filtered by `valid_packet`), everything else keeps the historical generator and random stream (C03 / C15 use it).
+_OPTION_KEYS = ("errors", "enc", "dec", "fields", "proto", "fix_imports", "unpickler", "optimize", "classes", "hdr", "opt")
+
+# text encodings.  ASCII-transparent = every ASCII byte stands for the same ASCII character and no other character's encoding
+# contains an ASCII byte: the only ones the byte-oriented JSON framers (newline / bracket scanner) can carry in STREAM mode
+# (JSONSerializer(encoding="utf-16") sends documents the receiving side of the same serializer rejects: reported, see
+# docs/SER-STRENGTHENING.md section 10; env VERIF_SER_REPORTED=1 puts those configurations back into the generators).
+ENC_ASCII = ["ascii", "utf-8", "latin-1", "cp1252", "iso8859-15", "cp437", "koi8-r"]
+ENC_WIDE = ["utf-16", "utf-16-be", "utf-16-le", "utf-32", "utf-7", "utf-8-sig", "idna", "punycode", "cp037", "shift_jis", "gb18030",
+            "unicode_escape"]
+# error handlers that exist for BOTH directions (xmlcharrefreplace / namereplace are encode-only in Python: str(bytes, enc,
+# "xmlcharrefreplace") answers malformed input with TypeError — a configuration outside the legal domain of a serializer
+# that also decodes; reported as an observation)
+ERRORS = ["strict", "surrogateescape", "surrogatepass", "replace", "ignore", "backslashreplace"]
+REPORTED = bool(os.environ.get("VERIF_SER_REPORTED"))
+
+STRUCT_FORMATS = ["!B", "!HB", "!IH", "<qB", "!?f", ">3H", "<2xHx", "=hQ", "@bI", "!4sB", "<5pH", "!c?", "!d", "<e", "hh", ">bBhHiIlLqQ",
+                  "@c3xi", "!2s2s", "<0sB", "=?x?"]
+
+
+def has_options(spec: dict) -> bool:
+    if any(k in spec for k in _OPTION_KEYS):
+        return True
+    if spec["k"] == "line" and spec.get("encoding", "ascii") not in ("ascii", "utf-8"):
+        return True
+    if spec["k"] == "json" and "encoding" in spec:
+        return True
+    if spec["k"] == "struct" and spec["format"] not in ("!B", "!HB", "!IH", "<qB"):
+        return True
+    if isinstance(spec.get("checksum"), dict) or spec.get("check") is False:
+        return True
+    return any(has_options(spec[k]) for k in ("inner", "sent", "received") if isinstance(spec.get(k), dict))
+
+
+def struct_tokens(fmt: str) -> list[tuple[int, str]]:
+    """(repeat count, format character) of a struct format, byte-order character dropped"""
+    if fmt[:1] in "@=<>!":
+        fmt = fmt[1:]
+    return [(int(c or 1), ch) for c, ch in _re.findall(r"(\d*)([a-zA-Z?])", fmt)]
+
+
+def vary(rng, spec: dict, *, oneshot: bool = False, malformed: bool = False, ascii_only: bool = False) -> dict:
+    """draw the constructor options of `spec` (in place) from their legal domain; a draw is kept only if the real constructor
+    accepts it and (unless malformed) at least one valid packet exists for it — e.g. the idna codec supports no error handler
+    but strict, and a punycode line with keep_end ends with "-", never with the newline: such draws are repeated."""
+    import copy
+    for _ in range(12):
+        cand = copy.deepcopy(spec)
+        _vary(rng, cand, oneshot=oneshot, malformed=malformed, ascii_only=ascii_only)
+        try:
+            build(cand)
+            ok = malformed or valid_packet(cand, fallback_packet(cand), oneshot)
+        except Exception:  # noqa: BLE001
+            ok = False
+        if ok:
+            spec.clear()
+            spec.update(cand)
+            break
+    return spec
+
+
+def _vary(rng, spec: dict, *, oneshot: bool = False, malformed: bool = False, ascii_only: bool = False) -> dict:
+    """draw the constructor options of `spec` (in place, recursively) from their legal domain.
+    oneshot   : the serializer is only used through serialize()/deserialize() (datagrams, inside a wrapper): JSON may use any
+                text encoding
+    malformed : no round trip is expected (C06): any text encoding for line / JSON as well
+    ascii_only: payloads are built by the caller from ASCII filler bytes (C02, C07): ASCII-transparent encodings only"""
+    k = spec["k"]
+    if k in ("stapled", "stapledbuf"):
+        _vary(rng, spec["received"], oneshot=oneshot, malformed=malformed, ascii_only=ascii_only)
+        spec["sent"] = spec["received"]
+        if rng.random() < 0.3:
+            # the sending half is a different object with its own limit / debug flag (neither takes part in sending)
+            spec["sent"] = {**spec["received"], "debug": rng.random() < 0.5}
+            if "limit" in spec["sent"]:
+                spec["sent"]["limit"] = rng.choice([1, 7, 1 << 20])
+                if spec["sent"]["k"] == "json":
+                    spec["sent"]["limit"] = max(spec["sent"]["limit"], 7)
+        return spec
+    if k in ("b64", "zlib", "bz2"):
+        if rng.random() < 0.5:
+            spec["inner"] = _gen_inner(rng)
+        _vary(rng, spec["inner"], oneshot=True, malformed=malformed)
+        if k == "b64":
+            r = rng.random()
+            if r < 0.3:
+                spec["checksum"] = {"key": rng.choice(B64_KEYS), "as": rng.choice(["str", "bytes"])}
+            spec["alphabet"] = rng.choice(["standard", "urlsafe"])
+        else:
+            spec["level"] = rng.choice([None, 1, 2, 5, 9] + ([0, -1] if k == "zlib" else []))
+        spec["opt"] = 1
+        return spec
+    if k == "line":
+        # keep_end: the newline is part of the decoded text, and the producer appends the RAW separator bytes unless the encoded
+        # text already ends with them: only meaningful when the codec encodes the newline as those very bytes
+        encs = ENC_ASCII if ascii_only else ENC_ASCII + ["utf-8-sig"] if (spec.get("keep_end") and not malformed) else ENC_ASCII + ENC_WIDE
+        spec["encoding"] = rng.choice(encs)
+        spec["errors"] = _pick_errors(rng, spec["encoding"])
+        return spec
+    if k == "json":
+        wide_ok = (oneshot or malformed or REPORTED) and not ascii_only
+        encs = list(ENC_ASCII)
+        if wide_ok:
+            encs += ENC_WIDE
+        elif spec.get("use_lines", True) and not ascii_only:
+            encs += ["utf-7", "utf-8-sig"]      # no newline byte inside, and the framer only looks for the newline
+        spec["encoding"] = rng.choice(encs)
+        spec["errors"] = _pick_errors(rng, spec["encoding"])
+        if rng.random() < 0.6:
+            spec["enc"] = {"ensure_ascii": rng.random() < 0.4, "allow_nan": rng.random() < 0.6, "skipkeys": rng.random() < 0.3,
+                           "check_circular": rng.random() < 0.5}
+            if rng.random() < 0.3:
+                spec["enc"]["default"] = "setlist"
+        if rng.random() < 0.6:
+            d: dict[str, Any] = {"strict": rng.random() < 0.5}
+            for key, name in (("parse_int", "int"), ("parse_float", "float"), ("parse_constant", "constfloat"),
+                              ("object_hook", "ident"), ("object_pairs_hook", "dict")):
+                if rng.random() < 0.3:
+                    d[key] = name
+            spec["dec"] = d
+        return spec
+    if k == "struct":
+        spec["format"] = rng.choice(STRUCT_FORMATS)
+        return spec
+    if k == "ntstruct":
+        return _vary_ntstruct(rng, spec, malformed)
+    if k == "pickle":
+        spec["proto"] = rng.choice([0, 1, 2, 3, 4, 5])
+        spec["fix_imports"] = rng.random() < 0.3
+        if rng.random() < 0.4:
+            spec["unpickler"] = {"fix_imports": rng.random() < 0.5, "encoding": rng.choice(["utf-8", "latin-1", "bytes"]),
+                                 "errors": rng.choice(["strict", "replace"])}
+        if spec["fix_imports"]:
+            # (Python-2 compatible names are written for protocols < 3: the reading side must map them back)
+            spec["unpickler"] = {**spec.get("unpickler", {"encoding": "utf-8", "errors": "strict"}), "fix_imports": True}
+        spec["optimize"] = rng.random() < 0.4
+        spec["classes"] = rng.random() < 0.3
+        return spec
+    if k == "autosep":
+        if rng.random() < 0.4:
+            spec["check"] = False
+        spec["opt"] = 1
+        return spec
+    if k == "fixed":
+        spec["size"] = rng.choice([1, 2, 3, 5, 9, 17, 64])
+        spec["opt"] = 1
+        return spec
+    if k in FILE_TOYS:
+        spec["opt"] = 1
+        return spec
+    return spec
+
+
+def _gen_inner(rng) -> dict:
+    """a serializer used through its ONE-SHOT interface inside a wrapper: every newline / keep_end of the line serializer (the
+    wrapper calls the inner deserialize(), which strips whole trailing newline sequences only), JSON, pickle, the struct
+    serializers, and now and then another wrapper"""
+    r = rng.random()
+    if r < 0.4:
+        return {"k": "line", "newline": rng.choice(["LF", "CR", "CRLF", "CRLF"]), "keep_end": rng.random() < 0.3, "limit": 65536,
+                "encoding": rng.choice(["ascii", "utf-8"])}
+    if r < 0.55:
+        return {"k": "json", "use_lines": rng.random() < 0.7, "limit": 65536}
+    if r < 0.7:
+        return {"k": "pickle"}
+    if r < 0.8:
+        return {"k": "struct", "format": "!IH"}
+    if r < 0.9:
+        return {"k": "ntstruct"}
+    w = rng.choice(["b64", "zlib", "bz2"])
+    inner = _gen_inner(rng)
+    if w == "b64":
+        return {"k": "b64", "inner": inner, "checksum": rng.random() < 0.5, "separator": "0d0a", "limit": 65536}
+    return {"k": w, "inner": inner}
+
+
+_NT_FMTS = ["b", "B", "h", "H", "i", "I", "l", "L", "q", "Q", "c", "f", "d", "e", "p"]   # ("?" is refused by the constructor: not isalpha())
+_NT_STR = ["s", "1s", "2s", "4s", "6s", "8s", "12s"]
+
+
+def _vary_ntstruct(rng, spec: dict, malformed: bool) -> dict:
+    fields = []
+    for i in range(rng.randint(1, 4)):
+        fields.append([f"f{i}", rng.choice(_NT_STR) if rng.random() < 0.55 else rng.choice(_NT_FMTS)])
+    if not any(f.endswith("s") for _, f in fields):
+        fields[rng.randrange(len(fields))][1] = rng.choice(_NT_STR)
+    spec["fields"] = fields
+    spec["endian"] = rng.choice(["", "!", "<", ">", "=", "@"])
+    spec["strip"] = rng.random() < 0.7
+    r = rng.random()
+    # (utf-16 / utf-32 text in an `Ns` field: its NUL bytes ARE the text, so the documented stripping of trailing NUL bytes cuts
+    #  the last character of "abc" in half, and without stripping the NUL padding must itself be whole characters: only for
+    #  the malformed-input check)
+    spec["encoding"] = None if r < 0.25 else rng.choice(["utf-8", "utf-8", "ascii", "latin-1", "cp1252"] +
+                                                       (["utf-16-le", "utf-32-be"] if malformed else []))
+    spec["errors"] = _pick_errors(rng, spec["encoding"]) if spec["encoding"] else rng.choice(ERRORS)
+    return spec
+
+
+def _pick_errors(rng, enc: str) -> str:
+    """an error handler the codec supports in BOTH directions (idna and punycode know no handler but strict for decoding,
+    surrogatepass exists for the utf-8/16/32 family only…): judged by the codec itself on the text "a" """
+    ok = [e for e in ERRORS if codec_roundtrips("a", enc, e)]
+    return rng.choice(ok or ["strict"])
+
+
+@functools.lru_cache(maxsize=256)
+def _sender(key: str) -> Any:
+    return build(_json.loads(key))
+
+
+def sender(spec: dict) -> Any:
+    """the sending-side serializer of `spec` (cached: serializers are stateless)"""
+    return _sender(_json.dumps(send_spec(spec), sort_keys=True))
+
+
+def valid_packet(spec: dict, packet: Any, oneshot: bool = False) -> bool:
+    """the documented notion of a valid packet: the producer accepts it, the frame is not empty and (separator framers) the first
+    occurrence of the separator in the frame is the appended one.  Judged with the real PRODUCER only."""
+    ser = sender(spec)
+    try:
+        frame = ser.serialize(packet) if oneshot else b"".join(ser.incremental_serialize(packet))
+    except Exception:  # noqa: BLE001  (ValueError, UnicodeError, struct.error, TypeError, OverflowError: refused by the sender)
+        return False
+    if oneshot:
+        return True
+    if not frame:
+        return False
+    sep = separator(send_spec(spec))
+    if sep is not None and frame.find(sep) != len(frame) - len(sep):
+        return False
+    return True
+
+
+def codec_roundtrips(s: str, enc: str, err: str) -> bool:
+    """Python's own codec gives the text back (a property of the CODEC, which is a parameter of the theorems): excludes lossy
+    handlers where they act (replace, ignore), surrogate escapes that re-combine into a valid sequence, IDNA case folding…"""
+    try:
+        return str(s.encode(enc, err), enc, err) == s
+    except (UnicodeError, LookupError):
+        return False
+
+
+_TEXT_CANDIDATES = ALPHA + "éü€😀ĀĊ\u2028\x00\x7f" + "\udc80\udcff\udce9\ud800\udfff" + "-."
+
+
+@functools.lru_cache(maxsize=None)
+def text_alphabet(enc: str, err: str) -> str:
+    if enc in ("idna", "punycode"):
+        cand = "abcxyz019-.éü"
+    else:
+        cand = _TEXT_CANDIDATES
+    return "".join(c for c in cand if codec_roundtrips(c, enc, err)) or "a"
+
+
+def _gen_text(rng, enc: str, err: str, maxlen: int, minlen: int = 1) -> str:
+    chars = text_alphabet(enc, err)
+    ascii_part = "".join(c for c in chars if c in ALPHA) or chars
+    for _ in range(30):
+        n = rng.randint(minlen, max(minlen, maxlen))
+        # mostly ASCII with some of the special characters, so that the length bound (in BYTES) is met often enough
+        s = "".join(rng.choice(chars if rng.random() < 0.35 else ascii_part) for _ in range(n))
+        if codec_roundtrips(s, enc, err):
+            return s
+    return "a" * minlen
+
+
+def _leaf_packet(rng, spec: dict, maxlen: int) -> Any:
+    """one candidate packet for the (innermost) sending serializer of an option-varied spec"""
+    k = spec["k"]
+    if k == "line":
+        enc, err = spec.get("encoding", "ascii"), spec.get("errors", "strict")
+        nl = NEWLINES[spec["newline"]].decode()
+        s = _gen_text(rng, enc, err, maxlen)
+        r = rng.random()
+        if len(nl) == 2 and r < 0.45:
+            # parts of the newline sequence inside and, above all, at the END of the packet (a lone CR / LF is payload)
+            part = rng.choice(["\r", "\n", "\n\r", "\r\r"])
+            s = (s[:-1] + part) if r < 0.3 else (s[: len(s) // 2] + part + s[len(s) // 2:])
+        elif len(nl) == 1 and r < 0.2:
+            s = s[:-1] + ("\n" if nl == "\r" else "\r")
+        if spec.get("keep_end"):
+            s += nl
+        return s
+    if k == "json":
+        return _gen_json_value(rng, spec)
+    if k == "struct":
+        vals: list[Any] = []
+        for cnt, ch in struct_tokens(spec["format"]):
+            if ch == "x":
+                continue
+            if ch == "s":
+                vals.append(bytes(rng.choice(b"ab\x00\xff\n") for _ in range(rng.choice([cnt, cnt, rng.randint(0, cnt)]))))
+            elif ch == "p":
+                vals.append(bytes(rng.choice(b"ab\x00\xff") for _ in range(rng.randint(0, max(0, cnt - 1)))))
+            else:
+                vals.extend(_struct_scalar(rng, ch) for _ in range(cnt))
+        return tuple(vals)
+    if k == "ntstruct":
+        if "fields" not in spec:
+            return Point(rng.randint(-1000, 1000), rng.randint(0, 65535), rng.choice(["a", "abc", "abcdef", "", "a\0b", "\0x"]))
+        enc, err, strip = spec.get("encoding", "utf-8"), spec.get("errors", "strict"), spec.get("strip", True)
+        vals = []
+        for name, fmt in spec["fields"]:
+            if not fmt.endswith("s"):
+                vals.append(_struct_scalar(rng, fmt))
+                continue
+            n = int(fmt[:-1] or 1)
+            for _ in range(40):
+                if enc is None:
+                    v: Any = bytes(rng.choice(b"ab\x00\x00\xff\x7f") for _ in range(rng.randint(0, n)))
+                    b = v
+                else:
+                    v = _gen_text(rng, enc, err, n, 0)
+                    b = v.encode(enc, err)
+                # struct truncates silently beyond N bytes; trailing NUL bytes are the padding (removed when strip is on)
+                if len(b) <= n and not (strip and b.endswith(b"\0")):
+                    break
+            else:
+                v = b"" if enc is None else ""
+            vals.append(v)
+        return nt_class([n for n, _ in spec["fields"]])(*vals)
+    if k == "pickle":
+        return rng.choice([1, "a", [1, 2], {"k": [1, 2]}, None, b"xyz", "é\udc80", 2 ** 70, -1.5, b"", ["\n", "\r\n"], True, {"": None}])
+    if k == "autosep":
+        sep = bytes.fromhex(spec["sep"])
+        alphabet = bytes(set(sep)) + b"ab"
+        while True:
+            p = bytes(rng.choice(alphabet) for _ in range(rng.randint(1, maxlen)))
+            # (a packet ending with the separator: the producer documents that it removes the superfluous separator)
+            if p[:1] != b"\xff" and not p.endswith(sep):
+                return p
+    if k == "fixed":
+        p = bytes(rng.randrange(0, 255) for _ in range(spec["size"]))
+        return p if p[:1] != b"\xff" else b"a" + p[1:]
+    if k in FILE_TOYS:
+        return bytes(rng.randrange(256) for _ in range(rng.randint(0, maxlen)))
+    raise ValueError(k)
+
+
+def _struct_scalar(rng, ch: str) -> Any:
+    bits = {"b": 8, "B": 8, "h": 16, "H": 16, "i": 32, "I": 32, "l": 32, "L": 32, "q": 64, "Q": 64, "n": 64, "N": 64}
+    if ch in bits:
+        w = bits[ch]
+        lo, hi = (0, 2 ** w - 1) if ch.isupper() else (-(2 ** (w - 1)), 2 ** (w - 1) - 1)
+        return rng.choice([lo, hi, 0, 1, rng.randint(lo, hi), rng.randint(lo, hi)])
+    if ch == "?":
+        return rng.random() < 0.5
+    if ch == "c":
+        return bytes([rng.choice([0, 1, 0x0A, 0x61, 0xFF])])
+    if ch == "f":
+        return rng.choice([0.0, 0.5, -1.25, 3.0, 1024.0, -65536.5])      # exactly representable in binary32
+    if ch == "e":
+        return rng.choice([0.0, 0.5, -2.0, 1024.0])                      # exactly representable in binary16
+    if ch == "d":
+        return rng.choice([0.0, 0.1, -3.7e200, 2.5, 1e-300])
+    raise ValueError(ch)
+
+
+def _gen_json_value(rng, spec: dict) -> Any:
+    enc = spec.get("enc") or {}
+    strings = ["a", "x\"y\\", "{[", "é", "", "\n", "\\\"", "C:\\dir\\\"q\"", "\\\\\"]", "\\" * rng.randint(1, 4) + "\"" + "}" * rng.randint(0, 2),
+               "€😀", "\udc80", "\ud800x", "\x00\x1f", "\u2028", "+-", "~\\", "\r\n", "\x7f"]
+    scalars: list[Any] = [0, -3, 17, 2.5, True, None, 10 ** 20, -1e-7, 1e+16]
+    if enc.get("allow_nan", True):
+        scalars += [float("inf"), float("-inf")]
+
+    def val(d: int) -> Any:
+        r = rng.random()
+        if d > 2 or r < 0.3:
+            return rng.choice(strings) if rng.random() < 0.6 else rng.choice(scalars)
+        if r < 0.65:
+            return [val(d + 1) for _ in range(rng.randint(0, 3))]
+        return {rng.choice(["k", "a b", "}", "\\", "é", "\udcff"]): val(d + 1) for _ in range(rng.randint(0, 2))}
+    return val(0)
+
+
+def _leaf_spec(spec: dict) -> dict:
+    spec = send_spec(spec)
+    while spec["k"] in ("b64", "zlib", "bz2"):
+        spec = spec["inner"]
+    return spec
+
+
+def _gen_packet_opt(rng, spec: dict, maxlen: int = 12) -> Any:
+    """packets for an option-varied spec: candidates from `_leaf_packet`, kept if the real producer accepts them (`valid_packet`)
+    and — for text carried by a one-shot inner serializer — if the text does not END with a whole newline sequence (which the
+    one-shot deserialize() documents it removes)"""
+    leaf = _leaf_spec(spec)
+    wrapped = leaf is not send_spec(spec)
+    for _ in range(60):
+        p = _leaf_packet(rng, leaf, maxlen)
+        if leaf["k"] == "line" and not leaf.get("keep_end"):
+            nl = NEWLINES[leaf["newline"]].decode()
+            if nl in p:
+                continue
+        if leaf["k"] == "line" and leaf.get("keep_end"):
+            nl = NEWLINES[leaf["newline"]].decode()
+            if p.find(nl) != len(p) - len(nl):
+                continue
+        if leaf["k"] == "line" and wrapped and not p:
+            continue
+        if leaf["k"] == "line" and not codec_roundtrips(p, leaf.get("encoding", "ascii"), leaf.get("errors", "strict")):
+            continue
+        if leaf["k"] == "line" and not leaf.get("keep_end") and \
+                p.encode(leaf.get("encoding", "ascii"), leaf.get("errors", "strict")).endswith(NEWLINES[leaf["newline"]]):
+            # a wide codec whose encoding of the LAST CHARACTER ends with the newline byte ("Ċ" = 01 0a in utf-16-be): the one-shot
+            # deserialize() removes trailing newline BYTES and cuts the character in half (observation, section 10 of the notes)
+            continue
+        if leaf["k"] == "json":
+            # the document text (Python's own json module, same ensure_ascii) must survive the text codec: a lossy handler
+            # (replace, ignore, …) acting on it is the codec's business, not a packet the property speaks about
+            try:
+                doc = _json.dumps(p, ensure_ascii=(leaf.get("enc") or {}).get("ensure_ascii", True))
+            except (TypeError, ValueError):
+                continue
+            if not codec_roundtrips(doc, leaf.get("encoding", "utf-8"), leaf.get("errors", "strict")):
+                continue
+        if valid_packet(spec, p):
+            return p
+    return fallback_packet(spec)
+
+
+def fallback_packet(spec: dict) -> Any:
+    leaf = _leaf_spec(spec)
+    k = leaf["k"]
+    if k == "line":
+        return "a" + (NEWLINES[leaf["newline"]].decode() if leaf.get("keep_end") else "")
+    if k == "json":
+        return [1]
+    if k == "struct":
+        vals: list[Any] = []
+        for cnt, ch in struct_tokens(leaf["format"]):
+            if ch in "sp":
+                vals.append(b"")
+            elif ch == "c":
+                vals.extend([b"a"] * cnt)
+            elif ch == "?":
+                vals.extend([False] * cnt)
+            elif ch in "efd":
+                vals.extend([0.0] * cnt)
+            elif ch != "x":
+                vals.extend([0] * cnt)
+        return tuple(vals)
+    if k == "ntstruct":
+        if "fields" not in leaf:
+            return Point(0, 0, "a")
+        vals = []
+        for name, fmt in leaf["fields"]:
+            if fmt.endswith("s"):
+                vals.append(b"" if leaf.get("encoding", "utf-8") is None else "")
+            elif fmt == "c":
+                vals.append(b"a")
+            elif fmt == "?":
+                vals.append(False)
+            elif fmt in "efd":
+                vals.append(0.0)
+            else:
+                vals.append(0)
+        return nt_class([n for n, _ in leaf["fields"]])(*vals)
+    if k == "pickle":
+        return 1
+    if k == "autosep":
+        return b"a"
+    if k == "fixed":
+        return b"a" * leaf["size"]
+    return b"a"
+
+
+def empty_packet(spec: dict) -> Any:
+    """a packet whose ONE-SHOT serialization is the empty byte string (an empty datagram is a datagram), or None"""
+    leaf = _leaf_spec(spec)
+    p: Any = {"line": "", "autosep": b""}.get(leaf["k"])
+    if p is None:
+        return None
+    try:
+        return p if sender(spec).serialize(p) == b"" else None
+    except Exception:  # noqa: BLE001
+        return None
+
+
+# WELL-FORMED pickles whose loading raises — one per exception class, all harmless (no side effect beyond a failed call).  "Not
+# necessarily limited to" in the pickle documentation: a hostile or corrupted pickle can make Unpickler.load() raise ANY class;
+# for the receiver it is one malformed datagram / frame.  (C06 uses only the classes of its declared pickle alphabet.)
+HOSTILE_PICKLES: dict[str, bytes] = {
+    "TypeError": b"cbuiltins\nint\n(NtR.",
+    "KeyError": b"coperator\ngetitem\n(}I1\ntR.",
+    "IndexError": b"coperator\ngetitem\n(]I3\ntR.",
+    "ZeroDivisionError": b"coperator\ntruediv\n(I1\nI0\ntR.",
+    "LookupError": b"c_codecs\nlookup\n(Vno-such-codec\ntR.",
+    "OverflowError": b"cmath\nexp\n(I100000\ntR.",
+    "MemoryError": b"cbuiltins\nbytearray\n(I99999999999999\ntR.",
+    "AttributeError": b"cbuiltins\ngetattr\n(NVnope\ntR.",
+    "UnicodeDecodeError": b"cbuiltins\nstr\n(C\x01\xffVutf-8\ntR.",
+    "UnicodeEncodeError": b"cbuiltins\nbytes\n(V\\udcff\nVascii\ntR.",
+    "ValueError": b"cbuiltins\nint\n(Vx\ntR.",
+    "StopIteration": b"cbuiltins\nnext\n(cbuiltins\niter\n((ttRtR.",
+    "FileNotFoundError": b"cbuiltins\nopen\n(V/nonexistent-dir-s2/x\ntR.",
+}
+
+
+# malformed payloads of text codecs (what the codec itself rejects; `codec_rejects` confirms each against the codec in use)
+CODEC_BAD: dict[str, list[bytes]] = {
+    "idna": [b"xn---", b"xn--a-", b"www..example.org", b"a" * 70, b"xn--\xff", b"ab.xn--0.c", b".."],
+    "punycode": [b"a-\xff", b"abc-\x80", b"-99999999999", b"a-b-!", b"\xe9"],
+    "utf-16": [b"a", b"\xff\xfea", b"\xff\xfe\x00\xd8", b"\x00\xdc\x00\xdc", b"abc"],
+    "utf-16-le": [b"a", b"\x00\xd8", b"\x00\xdc\x00\xdc", b"abc"],
+    "utf-16-be": [b"a", b"\xd8\x00", b"abc"],
+    "utf-32": [b"abc", b"\xff\xfe\x00\x00\x00\x00\x11\x00", b"\xff\xff\xff\xff"],
+    "utf-32-be": [b"abc", b"\x00\x11\x00\x00"],
+    "utf-7": [b"+2AA-", b"a+\xff", b"\xe9", b"+AGE", b"+\x00"],
+    "utf-8-sig": [b"\xef\xbb\xbf\xff", b"\xc3"],
+    "cp1252": [b"\x81", b"a\x8d", b"\x90\x9d"],
+    "cp037": [],
+    "shift_jis": [b"\x81", b"\xfd\xfd", b"a\xa0"],
+    "gb18030": [b"\x81", b"\xff", b"\x810"],
+    "koi8-r": [],
+    "cp437": [],
+    "iso8859-15": [],
+    "latin-1": [],
+    "unicode_escape": [b"\\x", b"\\u12", b"\\N{nope}", b"\\U00110000"],
+    "ascii": [b"\xff", b"a\x80"],
+    "utf-8": [b"\xff", b"\xc3", b"\xe2\x82", b"\xed\xa0\x80", b"\xf8\x88\x80\x80\x80"],
+}
+
+
+def codec_rejects(data: bytes, enc: str | None, err: str) -> bool:
+    if enc is None:
+        return False
+    try:
+        str(data, enc, err)
+    except UnicodeError:
+        return True
+    return False
+
+
+def codec_bad(rng, enc: str | None, err: str = "strict", avoid: bytes = b"") -> bytes | None:
+    """a byte string the text codec `enc` rejects under handler `err` and that does not contain `avoid` (None: it rejects none
+    of the candidates, e.g. latin-1, or a handler that swallows the error)"""
+    if enc is None:
+        return None
+    cands = [c for c in CODEC_BAD.get(enc, CODEC_BAD["utf-8"]) if codec_rejects(c, enc, err) and not (avoid and avoid in c)]
+    return rng.choice(cands) if cands else None
+
+
+# ------------------------------------------------------------------------------------------------
 # malformed frames, by construction
 # ------------------------------------------------------------------------------------------------
 
@@ -504,6 +1198,12 @@ def bad_frame(rng, spec: dict, extreme: bool = False) -> bytes | None:
     r = recv_spec(spec)
     k = r["k"]
     sep = separator(spec)
+    if k == "line" and has_options(r):
+        # what the text codec in use rejects (nothing for latin-1 or for a handler that swallows the error)
+        bad = codec_bad(rng, r.get("encoding", "ascii"), r.get("errors", "strict"), avoid=sep[:1])
+        if bad is None or sep in bad + sep[:-1]:
+            return None
+        return bad + sep
     if k == "line":
         body = bytes(rng.choice(b"abxyz \t") for _ in range(rng.randint(0, 5)))
         i = rng.randint(0, len(body))
@@ -513,9 +1213,36 @@ def bad_frame(rng, spec: dict, extreme: bool = False) -> bytes | None:
             d = rng.choice([2500, 5000])
             doc = rng.choice([b"[" * d + b"]" * d, b'{"a":' * d + b"1" + b"}" * d, b"[" + b"9" * rng.choice([4301, 5000]) + b"]"])
             return doc + (sep or b"")
+        # (the candidate that relies on the text codec rejecting 0xff only where the codec in use does reject it)
+        ff_ok = codec_rejects(b'"\xff"', r.get("encoding", "utf-8"), r.get("errors", "strict"))
         if r.get("use_lines", True):
-            return rng.choice([b'{"a": tru', b'[1,,2]', b'"\xff"', b"{]}", b"nul", b'{"a":"b",}', b"[01]"]) + sep
-        return rng.choice([b'{"a":}', b"[1,,2]", b"{]}", b'["a" "b"]', b"[tru]", b'{"a" 1}', b"[01]", b'{"k":[}', b'"\xff"', b"{,}"])
+            return rng.choice([b'{"a": tru', b'[1,,2]', b'"\xff"' if ff_ok else b'{"a" 1}', b"{]}", b"nul", b'{"a":"b",}', b"[01]"]) + sep
+        return rng.choice([b'{"a":}', b"[1,,2]", b"{]}", b'["a" "b"]', b"[tru]", b'{"a" 1}', b"[01]", b'{"k":[}',
+                           b'"\xff"' if ff_ok else b"[1 2]", b"{,}"])
+    if k == "ntstruct" and "fields" in r:
+        # a text field holding bytes its codec rejects (judged by the codec after the documented NUL stripping)
+        enc, err, strip = r.get("encoding", "utf-8"), r.get("errors", "strict"), r.get("strip", True)
+        vals, done = [], False
+        for name, fmt in r["fields"]:
+            if fmt.endswith("s"):
+                n = int(fmt[:-1] or 1)
+                bad = None if done else codec_bad(rng, enc, err)
+                if bad is not None and len(bad) <= n:
+                    b = bad + b"\0" * (n - len(bad))
+                    if codec_rejects(b.rstrip(b"\0") if strip else b, enc, err):
+                        vals.append(b)
+                        done = True
+                        continue
+                vals.append(b"a"[:n] if not strip else b"a"[:n])
+            elif fmt == "c":
+                vals.append(b"a")
+            elif fmt == "?":
+                vals.append(True)
+            elif fmt in "efd":
+                vals.append(0.5)
+            else:
+                vals.append(1)
+        return _struct.pack(nt_format(r), *vals) if done else None
     if k == "ntstruct":
         return _struct.pack("!iH6s", rng.randint(-5, 5), rng.randint(0, 9), rng.choice([b"\xff\xfeab", b"ab\xc3", b"\xe2\x82"]))
     if k == "b64":
@@ -526,6 +1253,8 @@ def bad_frame(rng, spec: dict, extreme: bool = False) -> bytes | None:
         import zlib
         inner = r["inner"]["k"]
         payload = {"json": b"{\"a\": tru", "pickle": b"\x80\x04nonsense", "line": b"\xff\xfe\n"}.get(inner)
+        if inner == "line" and has_options(r["inner"]):
+            payload = codec_bad(rng, r["inner"].get("encoding", "ascii"), r["inner"].get("errors", "strict"))
         if payload is None:
             return None
         return zlib.compress(payload, 1) if k == "zlib" else bz2.compress(payload, 1)
